@@ -171,6 +171,9 @@ Ctxs(T) ==
     C("swap", "copy", <<NX, <<"new", "y", T, 40>>, <<"cp", V("t1"), y, "swap_tmp">>, <<"cp", V("t2"), x, "swap_tmp">>,
                         <<"cp", x, V("t1"), "swap">>, <<"cp", y, V("t2"), "swap">>>>, <<>>, x, y, BOTH, BOTH, FALSE, {"swap_tmp"}),
     CP("result_tuple", BOTH), [CP("convert", BOTH) EXCEPT !.wsides = SRC],
+    \* identity conversions T(x): syntactically calls, semantically plain copies (seeded change C07-a)
+    CP("convert_same", BOTH), CP("convert_same_var", BOTH), CP("convert_same_paren", BOTH), CP("convert_same_assign", BOTH),
+    CP("convert_same_arg", BOTH), CP("convert_same_field", BOTH),
     C("ptr_to_ptr", "copy", <<NX, <<"new", "t", T, 40>>, <<"addr", "p", V("t")>>, <<"addr", "q", x>>, <<"cp", <<"p", <<D>>>>, <<"q", <<D>>>>, "ptr_to_ptr">>>>,
       <<>>, x, <<"p", <<D>>>>, BOTH, BOTH, FALSE, {}),
     \* ------------------------------------------------ aliasing contexts
